@@ -17,6 +17,7 @@ package client
 //@   inline
 
 //@ func getRawQuoteViaDevice(d, reportData) (r, err)
+//@   records viadevice
 //@   requires d != nil
 //@   ensures[relay-in] ioctl[0].happened && before(ioctl[0], command == IOC_GET_REPORT && typeis(argument, "*linuxabi.TdxReportReq")
 //@ |       && seq(reportReq(argument).ReportData) == seq(reportData))
@@ -37,6 +38,10 @@ package client
 //@ |       && r == after(getrawquote[0], r) && err == after(getrawquote[0], err) && !ioctl[0].happened
 //@   ensures[provider-input] getrawquote[0].happened ==> before(getrawquote[0], seq(reportData) == seq(outer_reportData))
 //@   ensures[no-provider-call] after(issupported[0], err != nil) ==> !getrawquote[0].happened
+// the device fallback relays what the device path returned: closing the device
+// afterwards changes neither the bytes nor the error
+//@   ensures[fallback-relays] viadevice[0].happened ==> after(issupported[0], err != nil) && r == after(viadevice[0], r) && err == after(viadevice[0], err)
+//@   ensures[fallback-error] after(issupported[0], err != nil) && !viadevice[0].happened ==> err != nil
 
 //@ func fallbackToDeviceForRawQuote(reportData) (r, err)
 //@   inline
